@@ -25,9 +25,11 @@ var (
 )
 
 type c19Pair struct {
-	tmpl *cmdTmpl
-	flag string // long name
-	def  string
+	tmpl  *cmdTmpl
+	flag  string // long name
+	def   string
+	short string
+	typ   string
 }
 
 func walkCmds() {
@@ -74,7 +76,7 @@ func walkCmds() {
 					// this is exactly the option whose default the template relies on: toggled below like any other
 				}
 				if !present {
-					c19Pairs = append(c19Pairs, c19Pair{t, f.Name, f.DefValue})
+					c19Pairs = append(c19Pairs, c19Pair{t, f.Name, f.DefValue, f.Shorthand, f.Value.Type()})
 				}
 			}
 		}
@@ -113,8 +115,8 @@ func init() {
 		Exhaustive: true,
 		Rule: "cases 0..#commands-1 (exhaustive walk): for every (sub)command reachable from cmd.RootCmd, in a process that has run every init() of " +
 			"package cmd and parsed nothing, every local, persistent and inherited flag: DefValue (what the help prints) == Value.String() (what the " +
-			"command would use). Remaining cases (end-to-end differential through the shipped binary): for every command template that runs offline and " +
-			"every flag of its command that the template leaves out: run with the flag omitted and with --flag=<DefValue> in fresh processes; stdout, " +
+			"command would use), and parsing the documented default in each spelling (--name value, --name=value, -n value) leaves the value unchanged and no word over. Remaining cases (end-to-end differential through the shipped binary): for every command template that runs offline and " +
+			"every flag of its command that the template leaves out: run with the flag omitted and with the default given (as --flag=<DefValue>, --flag <DefValue> or -f <DefValue> by input family) in fresh processes; stdout, " +
 			"exit status and every output file must be equal (an omitted run is repeated when they differ, so that a non-deterministic command is " +
 			"reported as inconclusive here and left to C18). non-trivial = the command has at least one flag (walk) / the command exits with status 0 in the omitted run (differential); distinct by (command, flag)",
 		Assumptions: []string{
@@ -142,6 +144,35 @@ func runC19(c *Ctx, idx int, o *Obs) {
 				fmt.Sprintf("%s --%s: the help documents the default %q, the command uses %q when the option is omitted", n.path, f.Name, f.DefValue, f.Value.String()),
 				n.path+" --"+f.Name, "cmd", n.path, "flag", f.Name)
 		}
+		// passing the documented default in any of the spellings the help describes (--name value, --name=value,
+		// -n value) must leave the value where it is and consume exactly the words it was given. Only for options
+		// that take a value and whose default can be written back; parsing the default changes nothing else.
+		for _, f := range fl {
+			switch f.Value.Type() {
+			case "int", "int64", "float64", "string", "uint", "uint64":
+			default:
+				continue
+			}
+			if f.DefValue != f.Value.String() {
+				continue // reported above
+			}
+			forms := [][]string{{"--" + f.Name, f.DefValue}, {"--" + f.Name + "=" + f.DefValue}}
+			if f.Shorthand != "" {
+				forms = append(forms, []string{"-" + f.Shorthand, f.DefValue})
+			}
+			for _, words := range forms {
+				err := n.c.ParseFlags(words)
+				left := n.c.Flags().Args()
+				o.Ev("default_spellings_parsed", 1)
+				ok := err == nil && len(left) == 0 && f.Value.String() == f.DefValue
+				if !o.Check(ok, "default_spelling_differs",
+					fmt.Sprintf("%s %s: after parsing the documented default the option holds %q (documented %q), words left over %q, error %v", n.path, strings.Join(words, " "), f.Value.String(), f.DefValue, left, err),
+					n.path+" "+strings.Join(words, " "), "cmd", n.path, "flag", f.Name) {
+					_ = f.Value.Set(f.DefValue)
+					break
+				}
+			}
+		}
 		o.Ev("flags_walked", len(fl))
 		o.Ev("commands_walked", 1)
 		o.Sample = n.path + " [" + strings.Join(names, " ") + "]"
@@ -160,7 +191,19 @@ func runC19(c *Ctx, idx int, o *Obs) {
 	c.Announce(what)
 	seed := []string{"--seed", "12345"}
 	a := runTmpl(c, p.tmpl, in, seed, "a")
-	b := runTmpl(c, p.tmpl, in, append([]string{"--" + p.flag + "=" + p.def}, seed...), "a")
+	// the default is passed in one of the spellings the help describes
+	given := []string{"--" + p.flag + "=" + p.def}
+	form := "--name=value"
+	if p.typ != "bool" && p.typ != "stringSlice" && p.typ != "intSlice" {
+		switch {
+		case fam%3 == 1:
+			given, form = []string{"--" + p.flag, p.def}, "--name value"
+		case fam%3 == 2 && p.short != "":
+			given, form = []string{"-" + p.short, p.def}, "-n value"
+		}
+	}
+	o.AddSet("default_spellings", form)
+	b := runTmpl(c, p.tmpl, in, append(given, seed...), "a")
 	o.Ev("differential_runs", 2)
 	if a.res.TimedOut || b.res.TimedOut {
 		o.Inconclusive = what + ": wall-clock watchdog"
